@@ -233,6 +233,26 @@ def run(ctx):
         check_set(ctx, obs)
         if i % 3 == 0:
             steps_correspondence(ctx, obs, reqs, metas)
+    # BITS objects with a DEFVAL (the shared generator leaves them out because of the recorded defect)
+    for i in range(2 if ctx.tier == 'quick' else 10):
+        r = random.Random(base + 70000 + i)
+        bits = ['bit%d' % k for k in range(r.randint(1, 5))]
+        chosen = r.sample(bits, r.randint(0, len(bits)))
+        text = ('ACME-BITS-MIB DEFINITIONS ::= BEGIN IMPORTS enterprises, OBJECT-TYPE FROM SNMPv2-SMI;\n'
+                'acmeBits OBJECT-TYPE SYNTAX BITS { %s } MAX-ACCESS read-only STATUS current DESCRIPTION "x" DEFVAL { { %s } } ::= { enterprises 88 }\nEND\n'
+                % (', '.join('%s(%d)' % (b, k) for k, b in enumerate(bits)), ', '.join(chosen)))
+        res.case(('bits', text), True)
+        res.count('bits-defval-modules')
+        inp = {'seed': base + 70000 + i, 'texts': {'ACME-BITS-MIB': text}}
+        st, out, comp = pipeline.compile_set({'ACME-BITS-MIB': text}, backend='pysnmp', genTexts=True)
+        if str(st.get('ACME-BITS-MIB')) != 'compiled':
+            res.oracle_failures.append({'key': 'bits-defval', 'what': 'module with a BITS DEFVAL is %s with the pysnmp backend: %s' % (
+                st.get('ACME-BITS-MIB'), str(getattr(st.get('ACME-BITS-MIB'), 'error', ''))[:200]), 'input': inp})
+        else:
+            try:
+                recbuilder.execute(out['ACME-BITS-MIB'], 'ACME-BITS-MIB')
+            except BaseException as e:
+                res.oracle_failures.append({'key': 'bits-defval', 'what': 'generated module with a BITS DEFVAL does not load: %s' % type(e).__name__, 'input': inp})
     # SMIv1 modules (TRAP-TYPE with and without DESCRIPTION / VARIABLES, ACCESS, SMIv1 types)
     from gen import v1gen
     for i in range(15 if ctx.tier == 'quick' else 300):
